@@ -16,7 +16,7 @@ import tempfile
 from concurrent.futures import ThreadPoolExecutor
 
 HERE = os.path.dirname(os.path.dirname(os.path.abspath(__file__)))
-SEEDED = os.path.join(HERE, 'seeded')
+SEEDED = os.environ.get('VERIF_SEEDED') or os.path.join(HERE, 'seeded')
 REPO = '/repo'
 
 
